@@ -223,7 +223,7 @@ func ruleRewriteDispatch(e *Engine, r *Reporter, pkgs []string, table map[string
 func init() {
 	register("C01", "Check decisions match the model's relation semantics", func(e *Engine, r *Reporter) {
 		ruleRewriteDispatch(e, r, []string{"internal/graph", "pkg/typesystem"}, rewriteSwitchAllowances, "rewrite-dispatch-total", "every type switch over the six rewrite kinds in the default engine and the typesystem covers all of them, or the reviewed subset with a fail-closed default", 8)
-		ruleReadSitesFiltered(e, r, map[string]bool{"v1": true})
+		ruleReadSitesFiltered(e, r, map[string]bool{"v1": true}, 8)
 		ruleDirectTupleGuards(e, r)
 		ruleValidatorReference(e, r)
 		ruleConditionErrorsUsed(e, r, []string{"internal/graph", "internal/checkutil", "pkg/server/commands", "internal/check", "internal/listobjects"})
@@ -287,7 +287,7 @@ func init() {
 	register("C05", "ListObjects returns exactly the permitted objects", func(e *Engine, r *Reporter) {
 		ruleFurtherEvalSticky(e, r)
 		ruleObjectsConfirmedByCheck(e, r)
-		ruleReadSitesFiltered(e, r, map[string]bool{"v1": true, "pipeline": true})
+		ruleReadSitesFiltered(e, r, map[string]bool{"v1": true, "pipeline": true}, 10)
 		r.Rule("reverse-expand-dispatch-total", "edge-kind switches of the reverse expansion cover every kind or fail closed", 3)
 		for _, s := range e.valueSwitches() {
 			if short(s.Pkg.PkgPath) == "pkg/server/commands/reverseexpand" && (s.Subject == "RelationshipEdgeType" || s.Subject == "EdgeType") {
@@ -352,4 +352,51 @@ func init() {
 		NotDecided: "the deadline bound itself, goroutine census at run time, CEL interruption latency, termination on cyclic data.",
 	})
 	techniques["C20"] = "acquire/release typestate via cut reachability on SSA with ownership-transfer idioms"
+}
+
+func init() {
+	register("C30", "Expand mirrors the rewrite and the directly assigned users", func(e *Engine, r *Reporter) {
+		ruleExpand(e, r)
+		ruleReadSitesFiltered(e, r, map[string]bool{"expand": true}, 2)
+	})
+	describe("C30", meta{
+		Decides:    "resolveUserset dispatches all six rewrite kinds (default fails) to resolvers that build the node kind of the same name, named toObjectRelation(tk); Difference keeps [base, subtract] order end to end and resolveUsersets stores child i at index i; the two leaf readers pass FilterInvalidTuples, collect through a set, and resolveThis sorts users on every path to the leaf; contextual tuples are validated and read through (C18, C04 rules).",
+		NotDecided: "tree equality against the model over all models and tuple sets.",
+	})
+	techniques["C30"] = "AST case->callee pairing + SSA description of the returned node literal; must-precede of the sort"
+}
+
+func init() {
+	register("C32", "AuthZEN endpoints agree with the native API", func(e *Engine, r *Reporter) {
+		ruleAuthZen(e, r)
+	})
+	describe("C32", meta{
+		Decides:    "layering and derivation: AuthZEN handlers and helpers never call commands.*, resolvers or the datastore (ActionSearch's model resolution excepted) but the native handlers; every Decision is the un-negated GetAllowed() of the native result or constant false with an error context; evaluateAll correlates item i with result i; every native request carries the AuthZEN request's store; search results are projections of the native ListUsers/StreamedListObjects results and ActionSearch returns a relation only when its check is allowed.",
+		NotDecided: "that the request mapping (properties merged into context, subject/resource to user/object strings) is the intended one — a specification question.",
+	})
+	techniques["C32"] = "who-may-call layering + value-origin analysis of the decision fields"
+}
+
+func init() {
+	register("C29", "Tuple and user string encodings round-trip", func(e *Engine, r *Reporter) {
+		ruleTupleConverters(e, r)
+	})
+	describe("C29", meta{
+		Decides:    "thin structural part only: the proto<->domain tuple-key converters in pkg/tuple read and assign every field their source and target share; UserProtoToString is total over the three User variants with a failing default and StringToUserProto produces each variant.",
+		NotDecided: "round-trip equality and the validity grammar over all strings — value-level, outside this technique.",
+	})
+	techniques["C29"] = "field-coverage (access path) analysis of converters + oneof exhaustiveness"
+}
+
+func init() {
+	register("C06", "ListUsers returns exactly the permitted users", func(e *Engine, r *Reporter) {
+		ruleRewriteDispatch(e, r, []string{luPkg}, nil, "listusers-dispatch-total", "expandRewrite covers every rewrite kind (unknown kinds fail)", 1)
+		ruleListUsers(e, r)
+		ruleReadSitesFiltered(e, r, map[string]bool{"v1": true}, 8)
+	})
+	describe("C06", meta{
+		Decides:    "expandRewrite is total over rewrite kinds; expand evaluates a rewrite only behind !enteredCycle with a key of object and relation; both datastore reads pass the model filter and a condition evaluation with the error consumed; intersection bookkeeping gives one vote per operand (counts change by exactly 1, send only when count+wildcards == operands); the wildcard-base branch of exclusion reports a positive only when neither the user nor the wildcard is subtracted (reviewed reference).",
+		NotDecided: "completeness of the returned set, the rest of the wildcard/exclusion bookkeeping, filter-type matching of returned entries — value-level.",
+	})
+	techniques["C06"] = "exhaustiveness, cut reachability, forward flow of read results, reviewed arithmetic/guard references"
 }
